@@ -114,6 +114,27 @@ def sizing_histories(opts, gran, bs):
                     "alloc %d" % gran, "release %d" % h, "blocks", "alloc %d" % sz, "dump"] + obs + ["blocks"])
 
 
+def reset_fill_histories(opts, gran, bs):
+    """Directed family for `reset` (JitAllocatorImpl_wipeOutBlock) and the memory it makes reusable: written spans in EVERY pool
+    (requests of 1, 2 and 4 granules and their multiples route to pools 0/1/2 under kUseMultiplePools), released in part, then a soft /
+    hard reset, the colour of every granule of every kept block (`mem`: the fill pattern with kFillUnusedMemory), allocation and reading
+    of the reused memory, and a second reset.  Added after seeded change C09-8 (wipe scaled with the base granularity instead of the
+    pool's), which the seeded random histories of the quick tier missed (the only multi-pool + fill set ran the no-reset profile)."""
+    sizes = [gran, 3 * gran, 2 * gran, 6 * gran, 4 * gran, 12 * gran, 8 * gran, 1, 5 * gran + 1]
+    for policy in ("soft", "hard"):
+        for rel in ([], [1, 4], [0, 2, 5, 8]):
+            lines = [cfg_line(opts, gran, bs, 0xD4D4D4D4), "isinit"]
+            for i, sz in enumerate(sizes):
+                lines += ["alloc %d" % sz, "write %d %x" % (i, 0x41 + i)]
+            lines += ["release %d" % h for h in rel]
+            lines += ["mem", "blocks", "reset " + policy, "mem", "sweep", "dump"]
+            n = len(sizes)
+            for j, sz in enumerate([2 * gran, 4 * gran, gran, 8 * gran]):
+                lines += ["alloc %d" % sz, "read %d" % (n + j)]
+            lines += ["write %d 7f" % n, "mem", "reset soft", "mem", "blocks", "dump"]
+            yield lines
+
+
 def large_page_histories(opts, gran):
     """kUseLargePages (+ kAlignBlockSizeToLargePage): blocks of at least the large-page size (2 MiB) and, with the align option, every
     block take the large-page attempt of JitAllocator_new_block; the sandbox grants none, so the fallback to regular pages is what runs."""
@@ -468,6 +489,12 @@ def build_histories(res, rng):
         for hst in sizing_histories(o, g, b):
             hists.append(hst)
             nsz += 1
+    # directed: written spans in every pool, then reset: the kept blocks carry the fill pattern, reused memory is clean
+    for o in (QUICK_OPTS if quick else range(64)):
+        for g in ((64, 128, 256) if (o & OPT_FILL) else (64,)):
+            for hst in reset_fill_histories(o, g, 65536):
+                hists.append(hst)
+                nsz += 1
     # directed: the large-page attempt and its fallback
     for o in ([OPT_LARGE, OPT_LARGE | OPT_ALIGNLP | OPT_FILL, OPT_LARGE | OPT_ALIGNLP | OPT_MULTI | OPT_NOPAD, OPT_DUAL | OPT_LARGE | OPT_ALIGNLP] if quick else
               [x | a for x in range(64) if x & OPT_LARGE for a in (0, OPT_ALIGNLP)]):
